@@ -1,7 +1,6 @@
 """Abstract connection module."""
 import asyncio
 import logging
-import sys
 import time
 from enum import Enum, IntEnum
 
@@ -584,6 +583,20 @@ class AsyncFIXConnection:
 
         await self.disconnect(dstate)
 
+    async def _send_replay(self, msg: FIXMessage):
+        """Sends retransmission / gap fill (keeps seq counter and journal intact)."""
+        encoded_msg = self._codec.encode(msg, self._session).encode("utf-8")
+        self._socket_writer.write(encoded_msg)
+        await self._socket_writer.drain()
+
+    async def _send_gap_fill(self, seq_from: int, seq_to: int):
+        """Sends SequenceReset(GapFillFlag=Y) covering [seq_from; seq_to)."""
+        gap_fill_msg = FIXMessage(FMsg.SEQUENCERESET)
+        gap_fill_msg[FTag.GapFillFlag] = "Y"
+        gap_fill_msg[FTag.MsgSeqNum] = seq_from
+        gap_fill_msg[FTag.NewSeqNo] = str(seq_to)
+        await self._send_replay(gap_fill_msg)
+
     async def _process_resend(self, resend_msg: FIXMessage):
         """Handles ResendRequest(35=2) - fills message gaps.
 
@@ -601,19 +614,10 @@ class AsyncFIXConnection:
 
         begin_seq_no = int(resend_msg[FTag.BeginSeqNo])
         end_seq_no = int(resend_msg[FTag.EndSeqNo])
-        if end_seq_no == 0:
-            end_seq_no = sys.maxsize
+        last_sent = self._session.next_num_out - 1
+        if end_seq_no == 0 or end_seq_no > last_sent:
+            end_seq_no = last_sent
         self.log.info("Received resent request from %s to %s", begin_seq_no, end_seq_no)
-        journal_replay_msgs = self._journaler.recover_messages(
-            self._session, MessageDirection.OUTBOUND, begin_seq_no, end_seq_no
-        )
-
-        # Remember next_num_out
-        current_next_num_out = self._session.next_num_out
-
-        self._journaler.set_seq_num(self._session, next_num_out=begin_seq_no)
-        gap_fill_begin = int(begin_seq_no)
-        gap_fill_end = int(begin_seq_no)
 
         noreply_msgs = {
             FMsg.LOGON,
@@ -624,26 +628,29 @@ class AsyncFIXConnection:
             FMsg.SEQUENCERESET,
         }
 
-        for enc_msg in journal_replay_msgs:
-            replay_msg, _, _ = self._codec.decode(enc_msg, silent=False)
-            msg_seq_num = int(replay_msg[FTag.MsgSeqNum])
+        if begin_seq_no >= 1 and begin_seq_no <= end_seq_no:
+            journal_replay_msgs = self._journaler.recover_messages(
+                self._session, MessageDirection.OUTBOUND, begin_seq_no, end_seq_no
+            )
+            gap_fill_begin = begin_seq_no
 
-            is_sess_msg = replay_msg[FTag.MsgType] in noreply_msgs
-            if is_sess_msg or not await self.should_replay(replay_msg):
-                gap_fill_end = msg_seq_num + 1
-            else:
-                if gap_fill_begin < gap_fill_end:
-                    # we need to send a gap fill message
-                    gap_fill_msg = FIXMessage(FMsg.SEQUENCERESET)
-                    gap_fill_msg[FTag.GapFillFlag] = "Y"
-                    gap_fill_msg[FTag.MsgSeqNum] = gap_fill_begin
-                    gap_fill_msg[FTag.NewSeqNo] = str(gap_fill_end)
-                    # breakpoint()
-                    await self.send_msg(gap_fill_msg)
+            for enc_msg in journal_replay_msgs:
+                replay_msg, _, _ = self._codec.decode(enc_msg, silent=False)
+                msg_seq_num = int(replay_msg[FTag.MsgSeqNum])
+                if msg_seq_num < gap_fill_begin or msg_seq_num > end_seq_no:
+                    continue
+
+                is_sess_msg = replay_msg[FTag.MsgType] in noreply_msgs
+                if is_sess_msg or not await self.should_replay(replay_msg):
+                    continue
+
+                if gap_fill_begin < msg_seq_num:
+                    await self._send_gap_fill(gap_fill_begin, msg_seq_num)
 
                 # and then resent the replayMsg
-                replay_msg[FTag.PossDupFlag] = "Y"
-                replay_msg[FTag.OrigSendingTime] = replay_msg[FTag.SendingTime]
+                replay_msg.set(FTag.PossDupFlag, "Y", replace=True)
+                if FTag.OrigSendingTime not in replay_msg:
+                    replay_msg[FTag.OrigSendingTime] = replay_msg[FTag.SendingTime]
                 del replay_msg[FTag.MsgType]
                 del replay_msg[FTag.BeginString]
                 del replay_msg[FTag.BodyLength]
@@ -651,27 +658,13 @@ class AsyncFIXConnection:
                 del replay_msg[FTag.SenderCompID]
                 del replay_msg[FTag.TargetCompID]
                 del replay_msg[FTag.CheckSum]
-                await self.send_msg(replay_msg)
+                await self._send_replay(replay_msg)
 
                 gap_fill_begin = msg_seq_num + 1
 
-        if gap_fill_end < gap_fill_begin:
-            self.log.warning(
-                "Journal MsgSeqNum not reflecting last"
-                f" next_num_out={current_next_num_out}, forcing reset."
-            )
-
-        assert gap_fill_end <= current_next_num_out, "Unexpected end for gap"
-
-        # Remainder not available in some reason
-        if gap_fill_begin < current_next_num_out:
-            gap_fill_msg = FIXMessage(FMsg.SEQUENCERESET)
-            gap_fill_msg[FTag.GapFillFlag] = "Y"
-            gap_fill_msg[FTag.MsgSeqNum] = gap_fill_begin
-            gap_fill_msg[FTag.NewSeqNo] = current_next_num_out
-            await self.send_msg(gap_fill_msg)
-
-        self._journaler.set_seq_num(self._session, next_num_out=current_next_num_out)
+            # Remainder not available in some reason
+            if gap_fill_begin <= end_seq_no:
+                await self._send_gap_fill(gap_fill_begin, end_seq_no + 1)
 
         if self._connection_state != ConnectionState.RESENDREQ_AWAITING:
             await self._state_set(ConnectionState.ACTIVE)
